@@ -107,6 +107,14 @@ class SignedCertificateTimestampList(VectorParsable):
 
 
 class PublicKeyX509(PublicKeyX509Base):
+    @classmethod
+    def from_der(cls, der):
+        public_key = super(PublicKeyX509, cls).from_der(der)
+        # ensure recursive parsing
+        public_key._certificate.native  # pylint: disable=protected-access,pointless-statement
+
+        return public_key
+
     @property
     def signed_certificate_timestamps(self):
         for extension in self._certificate['tbs_certificate']['extensions']:
